@@ -67,6 +67,12 @@ Proof.
   - unfold eof_outcome in H. destruct s; inversion H; apply suffix_nil.
 Qed.
 
+Example split_rest_is_suffix_nonvacuous :
+  rest_of (recv_k cfg_fixed 10 2 tt [97; 98; 99; 10; 100]) = Some [100] /\
+  rest_of (recv_k cfg_fixed 10 2 tt [97; 98; 99]) = Some [] /\
+  rest_of (recv_k cfg_fixed 10 2 tt []) = Some [].
+Proof. vm_compute. auto. Qed.
+
 (* ---- the n-th call, for every n ------------------------------------------------------------ *)
 
 (* the result of call number n+1 on a channel in state st reading s; after a crash there is no
